@@ -160,6 +160,15 @@ def gen_cases(tier):
             'tls_limits': [{}, {'max_tls': '1.2'}, {}, {'max_tls': '1.2'}] if i % 2 == 0 else [{'max_tls': '1.2'}, {}, {}, {}],
             'refusals_then_valid': r.choice([40, 70, 130]) if i % 10 in (3, 6) else 0,
         })
+        # value files that are not regular files: named pipes, /dev/stdin
+        if i % 10 == 1:
+            cases[-1]['ext_via'] = 'fifo'
+        elif i % 10 == 9:
+            cases[-1]['domain_via'] = 'fifo'
+        elif i % 20 == 7:
+            cases[-1].update(ext_via='devstdin', domain_via='flag' if cases[-1]['domain_via'] == 'stdin' else cases[-1]['domain_via'])
+        elif i % 20 == 17:
+            cases[-1].update(domain_via='devstdin', ext_via='flag' if cases[-1]['ext_via'] == 'stdin' else cases[-1]['ext_via'])
     return cases
 
 
@@ -207,7 +216,7 @@ def run(tier):
             sig = 'C16|%s|%s' % (kind, cls)
             chk.violation(sig, '%s (domain %r, key %s, digest %s, %s listener)' % (p, c['domain'], c['key_type'], c['digest'], c['listener']), res)
     chk.rule = ('one tacd instance per case (listeners: IPv4, bracketed IPv6 literal, unix socket; random domain incl. IDN/mixed case, daemon-rendered digest, key type x digest, '
-                'listener, input channel); distinct = (key type, digest, listener, domain channel, extension channel, domain class) '
+                'listener, input channel: flag, file, named pipe, /dev/stdin, standard input); distinct = (key type, digest, listener, domain channel, extension channel, domain class) '
                 'tuples for which at least one handshake was judged')
     chk.assumptions = ['the harness client reports what OpenSSL negotiated', 'expected A-labels from Python punycode codec']
     return chk.finish()
